@@ -775,3 +775,85 @@ func fewBits(c *big.Int) bool {
 	}
 	return n <= 4 && c.BitLen() <= 62
 }
+
+// substCExpr replaces free identifiers by expressions (used to unfold predicate applications syntactically).
+func substCExpr(e CExpr, m map[string]CExpr) CExpr {
+	if e == nil {
+		return nil
+	}
+	switch x := e.(type) {
+	case *CIdent:
+		if r, ok := m[x.Name]; ok {
+			return r
+		}
+		return x
+	case *CSel:
+		return &CSel{X: substCExpr(x.X, m), Name: x.Name}
+	case *CCall:
+		var args []CExpr
+		for _, a := range x.Args {
+			args = append(args, substCExpr(a, m))
+		}
+		return &CCall{Fun: x.Fun, Args: args} // function names are not substituted
+	case *CIndex:
+		return &CIndex{X: substCExpr(x.X, m), I: substCExpr(x.I, m)}
+	case *CSlice:
+		return &CSlice{X: substCExpr(x.X, m), Lo: substCExpr(x.Lo, m), Hi: substCExpr(x.Hi, m)}
+	case *CUnary:
+		return &CUnary{Op: x.Op, X: substCExpr(x.X, m)}
+	case *CBinary:
+		return &CBinary{Op: x.Op, X: substCExpr(x.X, m), Y: substCExpr(x.Y, m)}
+	case *CCond:
+		return &CCond{C: substCExpr(x.C, m), A: substCExpr(x.A, m), B: substCExpr(x.B, m)}
+	case *CQuant:
+		m2 := map[string]CExpr{}
+		for k, v := range m {
+			if k != x.Var {
+				m2[k] = v
+			}
+		}
+		return &CQuant{Forall: x.Forall, Var: x.Var, Lo: substCExpr(x.Lo, m2), Hi: substCExpr(x.Hi, m2), Type: x.Type, Body: substCExpr(x.Body, m2)}
+	case *CTypeAssert:
+		return &CTypeAssert{X: substCExpr(x.X, m), Type: x.Type}
+	}
+	return e
+}
+
+// splitConjDeep splits a goal into its conjuncts, also through applications of predicates whose body is a
+// conjunction (each part is then a separate, smaller obligation). Only predicates of the given package are unfolded,
+// and only when none of their parameters is captured by a binder in the argument expressions.
+func (eng *Engine) splitConjDeep(e CExpr, pkgPath string, depth int) []CExpr {
+	var out []CExpr
+	for _, p := range splitConj(e) {
+		call, ok := p.(*CCall)
+		id, ok2 := (*CIdent)(nil), false
+		if ok {
+			id, ok2 = call.Fun.(*CIdent)
+		}
+		if ok && ok2 && depth < 3 {
+			if sf := eng.CS.Specs[pkgPath+"."+id.Name]; sf != nil && sf.Body != nil && !sf.Math && len(sf.Params) == len(call.Args) {
+				if parts := splitConj(sf.Body); len(parts) > 1 {
+					m := map[string]CExpr{}
+					for i, prm := range sf.Params {
+						m[prm.Name] = call.Args[i]
+					}
+					for _, part := range parts {
+						out = append(out, eng.splitConjDeep(substCExpr(part, m), pkgPath, depth+1)...)
+					}
+					continue
+				}
+			}
+		}
+		// a ==> pred(...) : distribute
+		if b, isB := p.(*CBinary); isB && b.Op == "==>" {
+			if rs := eng.splitConjDeep(b.Y, pkgPath, depth); len(rs) > 1 {
+				for _, r := range rs {
+					out = append(out, &CBinary{Op: "==>", X: b.X, Y: r})
+				}
+				continue
+			}
+		}
+		out = append(out, p)
+	}
+	return out
+}
